@@ -210,6 +210,8 @@ impl DatabaseCheckpoint {
 
 		// Step 4: Copy all SSTables
 		let (sstable_count, sstables_size) = self.copy_sstables(&sstables_dir)?;
+		#[cfg(feature = "verif")]
+		crate::verif::point("checkpoint.after_tables");
 
 		// Step 5: Copy WAL segments
 		self.create_new_wal(&wal_dir)?;
